@@ -82,7 +82,7 @@ func bytesOfIndex(i uint64, n int) []byte {
 }
 
 func runC09(r *engine.Run) {
-	r.Rule = "E1 enumeration per decoder entry point, oracle: returns a value or an error, no panic (recovered and reported per input), no hang (watchdog), input buffer and its spare capacity byte-identical afterwards, stream decoders make progress (#commands <= len(input)). Frame decode: control-byte product (MHDR x length 0..40 x FCtrl x byte1 x FPort byte x filler) plus lengths up to 512 with four fillers and 17 lengths around 255x16 bytes and 2^16 (the payload cipher's 8-bit block counter, 16-bit length fields), followed on accepted frames by FOpts/FRMPayload command decode and decrypt-then-decode with two keys; base64: all strings of length <= 4 over a 10-symbol alphabet; MAC command stream decoders: all byte strings of length <= 3 x direction x 2 registry states, lengths 4..32 with all 65536 leading byte pairs; decrypt-then-decode with plaintext ranging over all 2-byte strings; join-accept decrypt over ciphertext lengths 0..40 and plaintext control bytes; CFList lengths 0..20 x 256 types; MACCommand CID x direction x length 0..8; the four application-layer command decoders: all strings <= 2 bytes, 3-byte strings (quick: 18 leading CIDs; thorough: all), (CID, second byte) all 65536 x lengths 0..40 x 2 fillers, every length 41..512 x leading CID x 3 fillers (several hundred commands in one payload); backend text/JSON unmarshalers: all strings of length <= 5 over a 14-symbol alphabet, well-formed text of every length 0..130 in 8 patterns x {plain, 0x} (also through json.Unmarshal into a payload struct) and every payload struct with each field (and each pair, thorough) set to each of 10 JSON atoms; every single-position replacement / insertion over a 16-symbol alphabet in 8 well-formed seed texts (timestamps, identifiers, numbers, a base64 frame) through every text decoder and as JSON members of ULMetaData. Cost: for every text decoder, the frame text decoder, JSON into a payload struct and the frame + MAC-command stream decoder, bytes allocated on inputs of 16k / 32k / 64k characters (four patterns) may not more than triple per doubling (a deterministic proxy for 'time linear in the input'). Non-trivial: the decoder returned a value (not an error)."
+	r.Rule = "E1 enumeration per decoder entry point, oracle: returns a value or an error, no panic (recovered and reported per input), no hang (watchdog), input buffer and its spare capacity byte-identical afterwards, stream decoders make progress (#commands <= len(input)). Frame decode: control-byte product (MHDR x length 0..40 x FCtrl x byte1 x FPort byte x filler) plus lengths up to 512 with four fillers and 17 lengths around 255x16 bytes and 2^16 (the payload cipher's 8-bit block counter, 16-bit length fields), followed on accepted frames by FOpts/FRMPayload command decode and decrypt-then-decode with two keys; base64: all strings of length <= 4 over a 10-symbol alphabet; MAC command stream decoders: all byte strings of length <= 3 x direction x 3 registry states (reset; three sized proprietary registrations; size-0 registrations), lengths 4..32 with all 65536 leading byte pairs; decrypt-then-decode with plaintext ranging over all 2-byte strings; join-accept decrypt over ciphertext lengths 0..40 and plaintext control bytes; CFList lengths 0..20 x 256 types; MACCommand CID x direction x length 0..8; the four application-layer command decoders: all strings <= 2 bytes, 3-byte strings (quick: 18 leading CIDs; thorough: all), (CID, second byte) all 65536 x lengths 0..40 x 2 fillers, every length 41..512 x leading CID x 3 fillers (several hundred commands in one payload); backend text/JSON unmarshalers: all strings of length <= 5 over a 14-symbol alphabet, well-formed text of every length 0..130 in 8 patterns x {plain, 0x} (also through json.Unmarshal into a payload struct) and every payload struct with each field (and each pair, thorough) set to each of 10 JSON atoms; every single-position replacement / insertion over a 16-symbol alphabet in 8 well-formed seed texts (timestamps, identifiers, numbers, a base64 frame) through every text decoder and as JSON members of ULMetaData. Cost: for every text decoder, the frame text decoder, JSON into a payload struct and the frame + MAC-command stream decoder, bytes allocated on inputs of 16k / 32k / 64k characters (four patterns) may not more than triple per doubling (a deterministic proxy for 'time linear in the input'). Non-trivial: the decoder returned a value (not an error)."
 	frameHistory(r, 2)
 	manyKeysHistory(r)
 	r.Rule += " E3 (schedules): the FOpts and FRMPayload MAC-command decoders against two concurrent registrations of proprietary commands, every interleaving (preemption-bounded and unbounded with state-key pruning), sync.RWMutex modelled with pending writers excluding new readers: every thread returns, no deadlock."
@@ -222,7 +222,7 @@ func runC09(r *engine.Run) {
 		c09Total(c, "PHYPayload.UnmarshalText", t, func(in []byte) error { return p.UnmarshalText(in) })
 	})
 
-	// ---- 3. MAC command stream decoders (two registry states)
+	// ---- 3. MAC command stream decoders (three registry states)
 	stream := func(c *engine.Case, uplink bool, b []byte) {
 		for _, viaFRM := range []bool{false, true} {
 			p := lorawan.PHYPayload{MHDR: lorawan.MHDR{MType: lorawan.UnconfirmedDataDown}}
@@ -261,10 +261,17 @@ func runC09(r *engine.Run) {
 			}
 		}
 	}
-	for state := 0; state < 2; state++ {
+	for state := 0; state < 3; state++ {
 		state := state
 		if !r.Replay || true {
 			lorawan.VerifRegistryReset()
+			if state == 2 {
+				// the legal registrations that register nothing (size 0), alone and after a sized one
+				lorawan.RegisterProprietaryMACCommand(true, 0x80, 0)
+				lorawan.RegisterProprietaryMACCommand(false, 0xFF, 0)
+				lorawan.RegisterProprietaryMACCommand(false, 0x80, 3)
+				lorawan.RegisterProprietaryMACCommand(false, 0x80, 0)
+			}
 			if state == 1 {
 				lorawan.RegisterProprietaryMACCommand(true, 0x80, 2)
 				lorawan.RegisterProprietaryMACCommand(false, 0xFF, 1)
